@@ -62,6 +62,16 @@ static void cursor_tests(const char* path) {
             const bool v = osmium::detail::fractional_seconds(&p);
             std::printf("%s %s ok %d %ld\n", kind.c_str(), hex.c_str(), int(v), static_cast<long>(p - s.c_str()));
         }
+        if (kind == "utf8") {
+            try {
+                const uint32_t cp = osmium::io::detail::next_utf8_codepoint(&p, s.c_str() + s.size());
+                std::printf("%s %s ok %u %ld\n", kind.c_str(), hex.c_str(), cp, static_cast<long>(p - s.c_str()));
+            } catch (const std::out_of_range&) {
+                std::printf("%s %s std::out_of_range %ld\n", kind.c_str(), hex.c_str(), static_cast<long>(p - s.c_str()));
+            } catch (const std::runtime_error&) {
+                std::printf("%s %s std::runtime_error %ld\n", kind.c_str(), hex.c_str(), static_cast<long>(p - s.c_str()));
+            }
+        }
         if (kind == "coord") {
             try {
                 const int32_t v = osmium::detail::string_to_location_coordinate(&p);
